@@ -1,7 +1,7 @@
 //! C01 — one handler at a time, in lifecycle order.
 use vsched::explore::Job;
 use vsched::report::{Plan, Unit};
-use vsched::ExecCfg;
+use vsched::{ExecCfg, Outcome};
 
 use crate::common::*;
 use crate::lifecycle::*;
@@ -29,6 +29,78 @@ fn oracle(run: &Run) -> Vec<String> {
         bad.push(format!("join handle of A did not complete normally: {:?} {:?}", run.join_ok, run.outer_join));
     }
     bad
+}
+
+/// Cluster build: messages that reach a LOCAL actor in serialized form (what a cluster session hands over for a
+/// peer's cast, `ActorCell::send_serialized`) are subject to the same rules: a handler that returns Err for one
+/// of them ends the actor, no further handler and no post_stop run, the supervisor is told of a failure.
+#[cfg(feature = "alt")]
+fn serialized_err_body(fail_with_panic: bool) -> vsched::Body {
+    use ractor::{Actor, ActorProcessingErr, ActorRef, BytesConvertable};
+    use std::sync::{Arc, Mutex};
+    struct Num {
+        log: Arc<Mutex<Vec<String>>>,
+        panic: bool,
+    }
+    #[ractor::async_trait]
+    impl Actor for Num {
+        type Msg = u32;
+        type State = ();
+        type Arguments = ();
+        async fn pre_start(&self, _m: ActorRef<u32>, _: ()) -> Result<(), ActorProcessingErr> {
+            Ok(())
+        }
+        async fn handle(&self, _m: ActorRef<u32>, m: u32, _: &mut ()) -> Result<(), ActorProcessingErr> {
+            self.log.lock().unwrap().push(format!("h{m}"));
+            if m == 13 {
+                if self.panic {
+                    panic!("handler panics on 13");
+                }
+                return Err("handler fails on 13".into());
+            }
+            Ok(())
+        }
+        async fn post_stop(&self, _m: ActorRef<u32>, _: &mut ()) -> Result<(), ActorProcessingErr> {
+            self.log.lock().unwrap().push("post_stop".into());
+            Ok(())
+        }
+    }
+    Arc::new(move || {
+        Box::pin(async move {
+            let plog = Log::default();
+            let log = Arc::new(Mutex::new(Vec::new()));
+            let (s, sh) = Actor::spawn(None, Probe, args("S", Prog::default(), &plog)).await.expect("S");
+            let (a, ah) = Actor::spawn_linked(None, Num { log: log.clone(), panic: fail_with_panic }, (), s.get_cell()).await.expect("A");
+            vsched::quiesce();
+            let cell = a.get_cell();
+            let mut accepted = Vec::new();
+            for m in [1u32, 13, 2] {
+                accepted.push(cell.send_serialized(ractor::message::SerializedMessage::Cast { variant: String::new(), args: m.into_bytes(), metadata: None }).is_ok());
+            }
+            vsched::quiesce_time();
+            let mut bad = Vec::new();
+            let l = log.lock().unwrap().clone();
+            if l != vec!["h1".to_string(), "h13".to_string()] {
+                bad.push(format!("serialized casts 1, 13, 2 (accepted {accepted:?}), the handler fails on 13: the callbacks ran as {l:?}, expected [h1, h13] and nothing after the failure"));
+            }
+            if a.get_status() != ractor::ActorStatus::Stopped {
+                bad.push(format!("the actor is {:?} after its handler failed", a.get_status()));
+                a.kill();
+            }
+            let _ = ah.await;
+            let sup: Vec<String> = plog.of("S").iter().filter_map(|e| if let Cb::Sup(x) = &e.cb { Some(x.clone()) } else { None }).collect();
+            if !sup.iter().any(|e| e.starts_with("Failed")) || sup.iter().any(|e| e.starts_with("Terminated")) {
+                bad.push(format!("the supervisor was told {sup:?}, expected a failure and no clean termination"));
+            }
+            s.stop(None);
+            let _ = sh.await;
+            Outcome { key: format!("{l:?}"), violations: bad }
+        })
+    })
+}
+#[cfg(not(feature = "alt"))]
+fn serialized_err_body(_fail_with_panic: bool) -> vsched::Body {
+    wrong_build()
 }
 
 pub fn scenarios(thorough: bool) -> Vec<Sc> {
@@ -117,6 +189,9 @@ pub fn plan(tier: &str) -> Plan {
     // callbacks are boxed `dyn Future`s there and the exit path also serves monitors
     for sc in scenarios(false) {
         units.push(alt_unit(format!("alt/c01/{}", sc.name()), cfg.clone(), Some(2), body(sc, oracle), 1));
+    }
+    for p in [false, true] {
+        units.push(alt_unit(format!("alt/c01/serialized-delivery/handler-{}", if p { "panics" } else { "err" }), cfg.clone(), Some(1), serialized_err_body(p), 1));
     }
     // the same racing closers at the granularity of the runtime's own steps: a decision point before every
     // atomic, lock, map and channel operation of the actor's task and of the closers (the windows inside
